@@ -1,6 +1,649 @@
-//! C33 — not implemented yet.
-use mc_core::Ctx;
+//! C33 — only valid signatures authorize a transaction.
+//!
+//! Every payload (seed, signature-list perturbation, byte mutation) goes through the real
+//! `RawNotarizedTransaction::validate`. Oracle, from the statement:
+//!   * accepted  =>  the reference (below) says every intent signature verifies over the hash of the intent it is
+//!     attached to and the notary signature verifies over the signed-intent hash, and the signer sets handed out
+//!     (root intent, each subintent) equal the reference sets: keys whose signatures verified, plus the notary iff it is
+//!     declared a signatory, as sets;
+//!   * a single-byte alteration of a valid transaction that is still accepted must leave the signed content (signed
+//!     intent hash) and the signer sets unchanged (i.e. it can only be an equivalent notary-signature encoding);
+//!   * well-formed seeds whose signers are distinct from each other and from the notary must be accepted.
+//! Reference: typed decode of the payload; hashes as reported by the real preparation (their correctness is C32); each
+//! secp256k1 signature: recover the key, then verify it with the non-recovering primitive; each ed25519 signature:
+//! verify with the attached key (primitives are C48's subject); notary: verify(signed-intent hash, notary key).
+//!
+//! Enumerated: (1) V1: every subset of signers {secp a, secp b, ed c} x notary in {a, c, n} x notary_is_signatory;
+//! V2: the same for the root x {no subintent, one subintent with every signer subset, two nested subintents with
+//! signer subsets from a 4-element menu each}; (2) on 7 seeds every signature-list perturbation (duplicate / drop /
+//! copy into another intent's list / sign another hash / reuse the notary signature / wrong attached ed25519 key /
+//! recovery-id flip / reversed order), each re-notarized and also with the stale notary signature; (3) every offset of
+//! the 7 seeds' raw bytes x substitutions (quick: orig^1, orig^0x80, 0x00, 0xFF; thorough: all 255, plus all 255x255
+//! substitutions of two adjacent bytes on the two smallest seeds).
+use crate::txseeds::*;
+use mc_core::{catch, par_range, Ctx, Level, Local};
+use radix_common::prelude::*;
+use radix_transactions::errors::*;
+use radix_transactions::model::*;
+use radix_transactions::signing::Signer;
+use radix_transactions::validation::*;
+use serde_json::{json, Map, Value};
+use std::collections::BTreeSet;
+use std::sync::atomic::{AtomicU64, Ordering};
 
-pub fn run(_ctx: Ctx) -> ! {
-    mc_core::machinery_error("C33: not implemented")
+type KeySet = BTreeSet<String>;
+
+fn key_str(k: &PublicKey) -> String {
+    match k {
+        PublicKey::Secp256k1(k) => format!("secp:{}", mc_core::hex(&k.0)),
+        PublicKey::Ed25519(k) => format!("ed:{}", mc_core::hex(&k.0)),
+    }
+}
+
+#[derive(Debug, Clone, PartialEq, Eq)]
+struct SignerSets {
+    root: KeySet,
+    subs: Vec<KeySet>,
+}
+
+#[derive(Debug, Clone, PartialEq, Eq)]
+enum Ref {
+    Valid(SignerSets),
+    Invalid(&'static str),
+    Undecided(&'static str),
+}
+
+fn ref_list(sigs: &[IntentSignatureV1], h: &Hash) -> Result<KeySet, Ref> {
+    let mut out = KeySet::new();
+    for s in sigs {
+        match &s.0 {
+            SignatureWithPublicKeyV1::Secp256k1 { signature } => {
+                let Some(pk) = verify_and_recover_secp256k1(h, signature) else { return Err(Ref::Invalid("intent-signature-does-not-recover")) };
+                if !verify_secp256k1(h, &pk, signature) {
+                    return Err(Ref::Undecided("recovered-key-does-not-verify-with-the-plain-primitive"));
+                }
+                out.insert(key_str(&PublicKey::Secp256k1(pk)));
+            }
+            SignatureWithPublicKeyV1::Ed25519 { public_key, signature } => {
+                if !verify_ed25519(h, public_key, signature) {
+                    return Err(Ref::Invalid("intent-signature-does-not-verify"));
+                }
+                out.insert(key_str(&PublicKey::Ed25519(*public_key)));
+            }
+        }
+    }
+    Ok(out)
+}
+
+fn ref_notary(pk: &PublicKey, sig: &SignatureV1, h: &Hash) -> bool {
+    match (pk, sig) {
+        (PublicKey::Secp256k1(pk), SignatureV1::Secp256k1(sig)) => verify_secp256k1(h, pk, sig),
+        (PublicKey::Ed25519(pk), SignatureV1::Ed25519(sig)) => verify_ed25519(h, pk, sig),
+        _ => false,
+    }
+}
+
+struct Hashes {
+    intent: Hash,
+    signed: Hash,
+    subs: Vec<Hash>,
+}
+
+fn reference(t: &UserTransaction, h: &Hashes) -> Ref {
+    let run = || -> Result<SignerSets, Ref> {
+        match t {
+            UserTransaction::V1(t) => {
+                let mut root = ref_list(&t.signed_intent.intent_signatures.signatures, &h.intent)?;
+                let header = &t.signed_intent.intent.header;
+                if !ref_notary(&header.notary_public_key, &t.notary_signature.0, &h.signed) {
+                    return Err(Ref::Invalid("notary-signature-does-not-verify"));
+                }
+                if header.notary_is_signatory {
+                    root.insert(key_str(&header.notary_public_key));
+                }
+                Ok(SignerSets { root, subs: vec![] })
+            }
+            UserTransaction::V2(t) => {
+                let si = &t.signed_transaction_intent;
+                let mut root = ref_list(&si.transaction_intent_signatures.signatures, &h.intent)?;
+                if si.non_root_subintent_signatures.by_subintent.len() != h.subs.len() {
+                    return Err(Ref::Invalid("signature-batches-do-not-match-subintents"));
+                }
+                let mut subs = vec![];
+                for (batch, sh) in si.non_root_subintent_signatures.by_subintent.iter().zip(&h.subs) {
+                    subs.push(ref_list(&batch.signatures, sh)?);
+                }
+                let header = &si.transaction_intent.transaction_header;
+                if !ref_notary(&header.notary_public_key, &t.notary_signature.0, &h.signed) {
+                    return Err(Ref::Invalid("notary-signature-does-not-verify"));
+                }
+                if header.notary_is_signatory {
+                    root.insert(key_str(&header.notary_public_key));
+                }
+                Ok(SignerSets { root, subs })
+            }
+        }
+    };
+    match run() {
+        Ok(s) => Ref::Valid(s),
+        Err(r) => r,
+    }
+}
+
+// ------------------------------------------------------------------------------------------------
+
+fn err_label(e: &TransactionValidationError) -> String {
+    let head = |s: String| s.split(|c: char| c == '(' || c == '{' || c == ' ').next().unwrap_or("").to_string();
+    match e {
+        TransactionValidationError::PrepareError(PrepareError::DecodeError(d)) => format!("prepare:DecodeError:{}", head(format!("{d:?}"))),
+        TransactionValidationError::PrepareError(p) => format!("prepare:{}", head(format!("{p:?}"))),
+        TransactionValidationError::SignatureValidationError(_, s) => format!("signature:{}", head(format!("{s:?}"))),
+        TransactionValidationError::IntentValidationError(_, i) => format!("intent:{}", head(format!("{i:?}"))),
+        TransactionValidationError::SubintentStructureError(_, s) => format!("structure:{}", head(format!("{s:?}"))),
+        other => head(format!("{other:?}")),
+    }
+}
+
+fn reached_signature_verification(e: &TransactionValidationError) -> bool {
+    matches!(
+        e,
+        TransactionValidationError::SignatureValidationError(
+            _,
+            SignatureValidationError::InvalidIntentSignature
+                | SignatureValidationError::InvalidNotarySignature
+                | SignatureValidationError::DuplicateSigner
+                | SignatureValidationError::NotaryIsSignatorySoShouldNotAlsoBeASigner
+        )
+    )
+}
+
+struct SeedFacts {
+    signed_hash: Hash,
+    sets: SignerSets,
+}
+
+struct Stats {
+    reached: AtomicU64,
+    accepted: AtomicU64,
+    payloads: AtomicU64,
+}
+
+#[derive(Clone, Copy, PartialEq, Eq)]
+enum Expect {
+    MustAccept,
+    Any,
+}
+
+/// `seed`: for byte mutations, the facts of the unmutated transaction (single-byte rule of the statement).
+#[allow(clippy::too_many_arguments)]
+fn check(validator: &TransactionValidator, bytes: &[u8], family: &str, how: &dyn Fn() -> Value, expect: Expect, seed: Option<&SeedFacts>, l: &mut Local, stats: &Stats) -> Option<SeedFacts> {
+    l.eval();
+    stats.payloads.fetch_add(1, Ordering::Relaxed);
+    let raw = RawNotarizedTransaction::from_slice(bytes);
+    let case = || json!({"family": family, "derivation": how(), "payload_hex": mc_core::hex(bytes)});
+    let real = match catch(|| raw.validate(validator)) {
+        Ok(r) => r,
+        Err(p) => {
+            l.class(&format!("{family}:panicked"));
+            l.info(&format!("panic:{}", mc_core::truncate(&p, 80)));
+            return None;
+        }
+    };
+    let validated = match real {
+        Err(e) => {
+            if reached_signature_verification(&e) {
+                stats.reached.fetch_add(1, Ordering::Relaxed);
+            }
+            if expect == Expect::MustAccept {
+                l.violation(format!("{family}:valid-transaction-rejected:{}", err_label(&e)), format!("a correctly signed transaction with distinct signers is rejected: {e:?}"), case());
+            } else {
+                l.class(&format!("{family}:rejected:{}", err_label(&e)));
+            }
+            return None;
+        }
+        Ok(v) => v,
+    };
+    stats.reached.fetch_add(1, Ordering::Relaxed);
+    stats.accepted.fetch_add(1, Ordering::Relaxed);
+    let (got, hashes) = match &validated {
+        ValidatedUserTransaction::V1(v) => (
+            SignerSets { root: v.signer_keys.iter().map(key_str).collect(), subs: vec![] },
+            Hashes { intent: v.prepared.transaction_intent_hash().0, signed: v.prepared.signed_transaction_intent_hash().0, subs: vec![] },
+        ),
+        ValidatedUserTransaction::V2(v) => (
+            SignerSets { root: v.transaction_intent_info.signer_keys.iter().map(key_str).collect(), subs: v.non_root_subintents_info.iter().map(|i| i.signer_keys.iter().map(key_str).collect()).collect() },
+            Hashes {
+                intent: v.prepared.transaction_intent_hash().0,
+                signed: v.prepared.signed_transaction_intent_hash().0,
+                subs: v.prepared.non_root_subintent_hashes().into_iter().map(|h| h.0).collect(),
+            },
+        ),
+    };
+    // the signer collections handed out must not contain duplicates (they are sets by type; compare sizes anyway)
+    let listed = match &validated {
+        ValidatedUserTransaction::V1(v) => v.signer_keys.len(),
+        ValidatedUserTransaction::V2(v) => v.transaction_intent_info.signer_keys.len(),
+    };
+    if listed != got.root.len() {
+        l.violation(format!("{family}:duplicate-in-signer-set"), "the root signer collection lists a key twice", case());
+    }
+    let typed = match UserTransaction::from_raw(&raw) {
+        Ok(t) => t,
+        Err(_) => {
+            l.info(&format!("{family}:accepted-but-typed-decode-fails"));
+            return None;
+        }
+    };
+    match reference(&typed, &hashes) {
+        Ref::Valid(want) => {
+            if want != got {
+                l.violation(format!("{family}:signer-set-differs"), format!("signer sets handed out {got:?}, reference (keys whose signatures verify + notary iff signatory) {want:?}"), case());
+                return None;
+            }
+        }
+        Ref::Invalid(why) => {
+            l.violation(format!("{family}:accepted-but-{why}"), format!("validation succeeded although the reference says: {why}"), case());
+            return None;
+        }
+        Ref::Undecided(why) => {
+            l.info(&format!("{family}:accepted:undecided:{why}"));
+            return None;
+        }
+    }
+    if let Some(seed) = seed {
+        if hashes.signed != seed.signed_hash {
+            l.violation(format!("{family}:byte-altered-signed-content-accepted"), "a single-byte alteration changed the signed content and the transaction is still accepted", case());
+            return None;
+        }
+        if got != seed.sets {
+            l.violation(format!("{family}:byte-altered-signer-set-accepted"), format!("a single-byte alteration changed the signer sets from {:?} to {got:?}", seed.sets), case());
+            return None;
+        }
+        l.class(&format!("{family}:accepted:same-content-same-signers"));
+        let d = how();
+        l.info(&format!(
+            "{family}:accepted-alteration:{}@offset{}(of {})={}",
+            d.get("seed").and_then(|x| x.as_str()).unwrap_or("?"),
+            d.get("offset").and_then(|x| x.as_u64()).unwrap_or(0),
+            bytes.len(),
+            d.get("value").and_then(|x| x.as_u64()).unwrap_or(0)
+        ));
+    } else {
+        l.class(&format!("{family}:accepted:signers={}", got.root.len() + got.subs.iter().map(|s| s.len()).sum::<usize>()));
+        l.sample(|| json!({"family": family, "derivation": how(), "signers": {"root": got.root, "subintents": got.subs}}));
+    }
+    Some(SeedFacts { signed_hash: hashes.signed, sets: got })
+}
+
+// ------------------------------------------------------------------------------------------------
+// (1) product of signer / notary choices
+// ------------------------------------------------------------------------------------------------
+
+const DOUBLE_SEEDS: [&str; 2] = ["v1-k0-notary-a", "v2-k1-no-subintents"];
+const A: KeyId = KeyId::Secp(1);
+const B: KeyId = KeyId::Secp(2);
+const C: KeyId = KeyId::Ed(3);
+const N: KeyId = KeyId::Secp(900);
+
+fn subset(mask: u32) -> Vec<KeyId> {
+    [A, B, C].iter().enumerate().filter(|(i, _)| mask & (1 << i) != 0).map(|(_, k)| *k).collect()
+}
+
+fn product_specs() -> Vec<TxSpec> {
+    let mut out = vec![];
+    for v2 in [false, true] {
+        for root_mask in 0..8u32 {
+            for notary in [A, C, N] {
+                for sig in [false, true] {
+                    let mut base = TxSpec::base(v2);
+                    base.root.signers = subset(root_mask);
+                    base.notary = notary;
+                    base.notary_is_signatory = sig;
+                    out.push(base.clone());
+                    if v2 {
+                        for m0 in 0..8u32 {
+                            let mut s = base.clone();
+                            let mut a = IntentSpec::base(1);
+                            a.signers = subset(m0);
+                            s.subs = vec![a];
+                            s.root.children = vec![0];
+                            out.push(s);
+                        }
+                        let menu: [Vec<KeyId>; 4] = [vec![], vec![A], vec![C, B], vec![A, B, C]];
+                        for m0 in &menu {
+                            for m1 in &menu {
+                                let mut s = base.clone();
+                                let mut a = IntentSpec::base(1);
+                                a.signers = m0.clone();
+                                a.children = vec![1];
+                                let mut b = IntentSpec::base(2);
+                                b.signers = m1.clone();
+                                s.subs = vec![a, b];
+                                s.root.children = vec![0];
+                                out.push(s);
+                            }
+                        }
+                    }
+                }
+            }
+        }
+    }
+    out
+}
+
+fn plain_valid(s: &TxSpec) -> bool {
+    // distinct signers per intent (by construction) and the notary is not among the root signers
+    !s.root.signers.contains(&s.notary)
+}
+
+// ------------------------------------------------------------------------------------------------
+// (2) signature-list perturbations
+// ------------------------------------------------------------------------------------------------
+
+fn mutation_seeds() -> Vec<(&'static str, TxSpec)> {
+    let mut out = vec![];
+    let mut s = TxSpec::base(false);
+    s.notary = A;
+    out.push(("v1-k0-notary-a", s));
+    let mut s = TxSpec::base(false);
+    s.root.signers = vec![A, C];
+    s.notary = KeyId::Ed(901);
+    s.notary_is_signatory = true;
+    out.push(("v1-k2-ed-notary-signatory", s));
+    let mut s = TxSpec::base(false);
+    s.root.signers = vec![A, B, C];
+    out.push(("v1-k3", s));
+    let mut s = TxSpec::base(true);
+    s.root.signers = vec![C];
+    out.push(("v2-k1-no-subintents", s));
+    let mut s = TxSpec::base(true);
+    s.root.signers = vec![A];
+    s.root.children = vec![0];
+    let mut a = IntentSpec::base(1);
+    a.signers = vec![B, C];
+    s.subs = vec![a];
+    out.push(("v2-k1-sub-k2", s));
+    let mut s = TxSpec::base(true);
+    s.root.signers = vec![A, C];
+    s.root.children = vec![0];
+    let mut a = IntentSpec::base(1);
+    a.signers = vec![B];
+    a.children = vec![1];
+    let mut b = IntentSpec::base(2);
+    b.signers = vec![KeyId::Ed(4)];
+    s.subs = vec![a, b];
+    s.notary = KeyId::Ed(901);
+    s.notary_is_signatory = true;
+    out.push(("v2-k2-two-nested-subs-ed-notary", s));
+    let mut s = TxSpec::base(true);
+    s.root.children = vec![0];
+    let mut a = IntentSpec::base(1);
+    a.signers = vec![A, B, C];
+    s.subs = vec![a];
+    out.push(("v2-k0-sub-k3", s));
+    out
+}
+
+/// mutable access to the signature lists (index 0 = root intent) and the hashes they must sign
+fn lists(t: &mut BuiltTx) -> Vec<&mut Vec<IntentSignatureV1>> {
+    match t {
+        BuiltTx::V1(t) => vec![&mut t.signed_intent.intent_signatures.signatures],
+        BuiltTx::V2(t) => {
+            let si = &mut t.signed_transaction_intent;
+            let mut v = vec![&mut si.transaction_intent_signatures.signatures];
+            v.extend(si.non_root_subintent_signatures.by_subintent.iter_mut().map(|b| &mut b.signatures));
+            v
+        }
+    }
+}
+
+fn signed_hash_of(t: &BuiltTx) -> Hash {
+    let s = permissive_settings();
+    match t {
+        BuiltTx::V1(t) => t.signed_intent.prepare(&s).expect("prepares").signed_transaction_intent_hash().0,
+        BuiltTx::V2(t) => t.signed_transaction_intent.prepare(&s).expect("prepares").signed_transaction_intent_hash().0,
+    }
+}
+
+fn intent_hashes_of(t: &BuiltTx) -> Vec<Hash> {
+    let s = permissive_settings();
+    match t {
+        BuiltTx::V1(t) => vec![t.signed_intent.intent.prepare(&s).expect("prepares").transaction_intent_hash().0],
+        BuiltTx::V2(t) => {
+            let p = t.signed_transaction_intent.transaction_intent.prepare(&s).expect("prepares");
+            let mut v = vec![p.transaction_intent_hash().0];
+            v.extend(p.non_root_subintents.subintents.iter().map(|s| s.subintent_hash().0));
+            v
+        }
+    }
+}
+
+fn renotarize(t: &mut BuiltTx, notary: KeyId) {
+    let h = signed_hash_of(t);
+    let sig = notary.private().sign_without_public_key(&h);
+    match t {
+        BuiltTx::V1(t) => t.notary_signature = NotarySignatureV1(sig),
+        BuiltTx::V2(t) => t.notary_signature = NotarySignatureV2(sig),
+    }
+}
+
+fn clone_built(t: &BuiltTx) -> BuiltTx {
+    match t {
+        BuiltTx::V1(t) => BuiltTx::V1(t.clone()),
+        BuiltTx::V2(t) => BuiltTx::V2(t.clone()),
+    }
+}
+
+/// every perturbation of the signature lists of `t` (labels + perturbed transactions, not yet re-notarized)
+fn perturbations(spec: &TxSpec, t: &BuiltTx) -> Vec<(String, BuiltTx)> {
+    let mut out = vec![];
+    let hashes = intent_hashes_of(t);
+    let signed = signed_hash_of(t);
+    let signer_lists: Vec<Vec<KeyId>> = std::iter::once(spec.root.signers.clone()).chain(spec.subs.iter().map(|s| s.signers.clone())).collect();
+    let n_lists = signer_lists.len();
+    let mut push = |label: String, f: &dyn Fn(&mut Vec<&mut Vec<IntentSignatureV1>>)| {
+        let mut c = clone_built(t);
+        {
+            let mut ls = lists(&mut c);
+            f(&mut ls);
+        }
+        out.push((label, c));
+    };
+    let notary_as_intent_sig = IntentSignatureV1(spec.notary.private().sign_with_public_key(&signed));
+    let mut other_hashes: Vec<(String, Hash)> = hashes.iter().enumerate().map(|(i, h)| (format!("intent-hash[{i}]"), *h)).collect();
+    other_hashes.push(("signed-intent-hash".into(), signed));
+    other_hashes.push(("zero-hash".into(), Hash([0u8; 32])));
+    for i in 0..n_lists {
+        let nsig = signer_lists[i].len();
+        push(format!("list[{i}]:append-notary-signature-over-signed-hash"), &|ls| ls[i].push(notary_as_intent_sig.clone()));
+        push(format!("list[{i}]:append-notary-key-signing-this-intent"), &|ls| ls[i].push(IntentSignatureV1(spec.notary.private().sign_with_public_key(&hashes[i]))));
+        if nsig >= 2 {
+            push(format!("list[{i}]:reverse"), &|ls| ls[i].reverse());
+        }
+        for j in 0..nsig {
+            push(format!("list[{i}]:duplicate[{j}]"), &|ls| {
+                let s = ls[i][j].clone();
+                ls[i].push(s);
+            });
+            push(format!("list[{i}]:drop[{j}]"), &|ls| {
+                ls[i].remove(j);
+            });
+            for i2 in 0..n_lists {
+                if i2 != i {
+                    push(format!("list[{i}][{j}]:copy-into-list[{i2}]"), &|ls| {
+                        let s = ls[i][j].clone();
+                        ls[i2].push(s);
+                    });
+                    push(format!("list[{i}][{j}]:move-into-list[{i2}]"), &|ls| {
+                        let s = ls[i].remove(j);
+                        ls[i2].push(s);
+                    });
+                }
+            }
+            for (name, h) in &other_hashes {
+                if *h != hashes[i] {
+                    let k = signer_lists[i][j];
+                    push(format!("list[{i}][{j}]:signs-{name}-instead"), &|ls| ls[i][j] = IntentSignatureV1(k.private().sign_with_public_key(h)));
+                }
+            }
+            match signer_lists[i][j] {
+                KeyId::Ed(_) => {
+                    push(format!("list[{i}][{j}]:ed25519-attached-key-swapped"), &|ls| {
+                        if let SignatureWithPublicKeyV1::Ed25519 { public_key, .. } = &mut ls[i][j].0 {
+                            *public_key = Ed25519PrivateKey::from_u64(4242).unwrap().public_key();
+                        }
+                    });
+                }
+                KeyId::Secp(_) => {
+                    for flip in [1u8, 2, 3] {
+                        push(format!("list[{i}][{j}]:secp-recovery-id^{flip}"), &|ls| {
+                            if let SignatureWithPublicKeyV1::Secp256k1 { signature } = &mut ls[i][j].0 {
+                                signature.0[0] ^= flip;
+                            }
+                        });
+                    }
+                }
+            }
+        }
+    }
+    out
+}
+
+// ------------------------------------------------------------------------------------------------
+
+pub fn run(ctx: Ctx) -> ! {
+    assert_signing_is_deterministic();
+    let validator = TransactionValidator::new_with_static_config(TransactionValidationConfig::latest(), NETWORK);
+    let babylon = TransactionValidator::new_with_static_config(TransactionValidationConfig::babylon(), NETWORK);
+    let stats = Stats { reached: AtomicU64::new(0), accepted: AtomicU64::new(0), payloads: AtomicU64::new(0) };
+
+    if let Some(case) = ctx.read_replay_case() {
+        let bytes = mc_core::unhex(case.get("payload_hex").and_then(|x| x.as_str()).unwrap_or(""));
+        let family = case.get("family").and_then(|x| x.as_str()).unwrap_or("replay").to_string();
+        let mut l = Local::new();
+        let raw = RawNotarizedTransaction::from_slice(&bytes);
+        println!("real: {:?}", catch(|| raw.validate(&validator).map(|_| "accepted").map_err(|e| err_label(&e))));
+        let d = case.get("derivation").cloned().unwrap_or(Value::Null);
+        // for byte mutations the seed facts are recomputed from the recorded seed payload
+        let seed = case.pointer("/derivation/seed_hex").and_then(|x| x.as_str()).and_then(|h| check(&validator, &mc_core::unhex(h), "seed", &|| json!("replay seed"), Expect::Any, None, &mut l, &stats));
+        check(&validator, &bytes, &family, &|| d.clone(), Expect::Any, seed.as_ref(), &mut l, &stats);
+        ctx.merge(l);
+        ctx.finish(Level::Exploration, "replay", 1, false, Map::new(), &[]);
+    }
+
+    // ---- (1) product ---------------------------------------------------------------------------------
+    let specs = product_specs();
+    par_range(&ctx, specs.len() as u64, 4, |i, l| {
+        let spec = &specs[i as usize];
+        let (_, raw) = build(spec).expect("builds");
+        let expect = if plain_valid(spec) { Expect::MustAccept } else { Expect::Any };
+        let how = || json!({"spec": spec.to_json()});
+        check(&validator, raw.as_slice(), "product", &how, expect, None, l, &stats);
+        if !spec.v2 {
+            check(&babylon, raw.as_slice(), "product-babylon", &how, expect, None, l, &stats);
+        }
+    });
+
+    // ---- (2) signature-list perturbations ---------------------------------------------------------------
+    let seeds = mutation_seeds();
+    let mut perturbed: Vec<(String, Vec<u8>)> = vec![];
+    let mut seed_raws: Vec<(&'static str, Vec<u8>)> = vec![];
+    for (name, spec) in &seeds {
+        let (built, raw) = build(spec).expect("builds");
+        seed_raws.push((name, raw.to_vec()));
+        for (label, mut p) in perturbations(spec, &built) {
+            perturbed.push((format!("{name}:{label}:stale-notary-signature"), p.to_raw().to_vec()));
+            renotarize(&mut p, spec.notary);
+            perturbed.push((format!("{name}:{label}:renotarized"), p.to_raw().to_vec()));
+        }
+    }
+    par_range(&ctx, perturbed.len() as u64, 4, |i, l| {
+        let (label, bytes) = &perturbed[i as usize];
+        check(&validator, bytes, "siglist", &|| json!(label), Expect::Any, None, l, &stats);
+    });
+
+    // ---- (3) byte substitutions ---------------------------------------------------------------------------
+    let mut facts = vec![];
+    {
+        let mut l = Local::new();
+        for (name, raw) in &seed_raws {
+            let f = check(&validator, raw, "seed", &|| json!(name), Expect::MustAccept, None, &mut l, &stats);
+            facts.push(f);
+        }
+        ctx.merge(l);
+    }
+    let all = !ctx.quick();
+    let double = AtomicU64::new(0);
+    let mut jobs: Vec<(usize, usize)> = vec![];
+    for (si, (_, raw)) in seed_raws.iter().enumerate() {
+        if facts[si].is_some() {
+            for off in 0..raw.len() {
+                jobs.push((si, off));
+            }
+        }
+    }
+    par_range(&ctx, jobs.len() as u64, 4, |j, l| {
+        let (si, off) = jobs[j as usize];
+        let (name, raw) = &seed_raws[si];
+        let orig = raw[off];
+        let values: Vec<u8> = if all {
+            (0..=255u8).filter(|b| *b != orig).collect()
+        } else {
+            let mut v = vec![];
+            for b in [orig ^ 1, orig ^ 0x80, 0x00, 0xFF] {
+                if b != orig && !v.contains(&b) {
+                    v.push(b);
+                }
+            }
+            v
+        };
+        let mut buf = raw.clone();
+        for b in values {
+            buf[off] = b;
+            check(&validator, &buf, "byte", &|| json!({"seed": name, "offset": off, "value": b, "seed_hex": mc_core::hex(raw)}), Expect::Any, facts[si].as_ref(), l, &stats);
+        }
+        buf[off] = orig;
+        // thorough: every substitution of two adjacent bytes on the two smallest seeds (the signature that covers the
+        // content still has to break, whatever the pair)
+        if all && DOUBLE_SEEDS.contains(name) && off + 1 < raw.len() {
+            for b1 in 0..=255u8 {
+                if b1 == orig {
+                    continue;
+                }
+                buf[off] = b1;
+                for b2 in 0..=255u8 {
+                    if b2 == raw[off + 1] {
+                        continue;
+                    }
+                    buf[off + 1] = b2;
+                    check(&validator, &buf, "byte2", &|| json!({"seed": name, "offset": off, "value": b1, "value2": b2, "seed_hex": mc_core::hex(raw)}), Expect::Any, facts[si].as_ref(), l, &stats);
+                }
+            }
+            double.fetch_add(255 * 255, Ordering::Relaxed);
+        }
+    });
+
+    let mut cov = Map::new();
+    cov.insert("product_transactions".into(), json!(specs.len()));
+    cov.insert("signature_list_perturbations".into(), json!(perturbed.len()));
+    cov.insert("byte_mutation_seeds".into(), json!(seed_raws.iter().map(|(n, r)| json!({"name": n, "bytes": r.len()})).collect::<Vec<_>>()));
+    cov.insert("byte_offsets".into(), json!(jobs.len()));
+    cov.insert("substitution_values_per_offset".into(), json!(if all { "all 255" } else { "orig^1, orig^0x80, 0x00, 0xFF" }));
+    cov.insert("adjacent_double_substitutions".into(), json!(double.load(Ordering::Relaxed)));
+    cov.insert("payloads".into(), json!(stats.payloads.load(Ordering::Relaxed)));
+    cov.insert("payloads_reaching_signature_verification".into(), json!(stats.reached.load(Ordering::Relaxed)));
+    cov.insert("payloads_accepted".into(), json!(stats.accepted.load(Ordering::Relaxed)));
+    ctx.finish(
+        Level::Exploration,
+        "a case is one payload validated from raw bytes by the real validator (latest configuration; V1 products also under babylon); non-trivial = payloads that got past preparation, limits and intent validation and were decided by signature verification (accepted, or rejected for an invalid / duplicate / notary-duplicating signature)",
+        stats.reached.load(Ordering::Relaxed),
+        true,
+        cov,
+        &[
+            "the hashes a signature must cover are taken from the real preparation (their commitment to content is C32)",
+            "the signature primitives (recover / verify) are trusted here (C48); a recovered secp256k1 key that the non-recovering verify rejects is only counted",
+            "keys are fixed (from_u64), signing is deterministic (checked at start-up)",
+            "whether a transaction whose notary also signs as a signer is accepted is version/config policy and not demanded either way; if accepted, its signer set must still equal the reference set",
+        ],
+    )
 }
